@@ -179,7 +179,7 @@ def tok_lit(w):
 def run(tier, seed, replay=None):
     assert_repo_import()
     chk = Check("C14", tier, seed)
-    model_ok = chk.proof_stage(["Gsm/TokEngine.vo", "Gen/GenPatterns.vo", "Gsm/ScanProofs.vo"])
+    model_ok = chk.proof_stage(["Gsm/TokEngine.vo", "Gen/GenPatterns.vo", "Gsm/ScanProofs.vo", "Scope/TieProofs.vo"])
     max_size, max_len = (4, 4) if tier == "quick" else (5, 5)
     words = G.all_words([1, 2, 3], max_len) + [w for w in G.all_words([1, 2, 3, 4], 3) if 4 in w]
     nn = [e for e in G.all_exprs(max_size) if not G.nullable(G.to_regex(e))]
